@@ -143,6 +143,9 @@ def chained_shapes(rng, n):
             lambda: N("try", body=[L(b"a")], reasons=rng.choice([None, ["nomatch"]]), handler=[]),
             lambda: N("try", body=[L(b"a"), L(b"c")], reasons=["nomatch"], handler=[N("hook", name="g")]),
             lambda: N("foreach", body=[L(b"aa")], do=[N("assign", var="m", e=N("bin", op="+", a=N("var", name="m"), b=num(1)))]),
+            lambda: N("try", body=[N("optional", body=[L(b"a")])], reasons=rng.choice([None, ["nomatch"]]), handler=[N("hook", name="g")]),
+            lambda: N("foreach", body=[N("optional", body=[L(b"a"), L(b"c")])], do=[N("assign", var="m", e=N("bin", op="+", a=N("var", name="m"), b=num(1)))]),
+            lambda: N("try", body=[N("try", body=[N("optional", body=[L(b"a")])], reasons=["nomatch"], handler=[])], reasons=None, handler=[N("hook", name="g")]),
             lambda: N("if", branches=[(N("bin", op="==", a=N("var", name="m"), b=num(0)), [L(b"a")])], orelse=None),
             lambda: N("if", branches=[(N("bin", op="==", a=N("var", name="m"), b=num(7)), [L(b"a")])], orelse=[L(b"c")]),
             lambda: N("case", greedy=False, clauses=[N("clause", preds=[N("lit", bs=b"a", form="s")], body=[], prio=None),
